@@ -382,6 +382,14 @@ def part_chain(c, n):
             j = int(rng.integers(obj.site_num))
             ops.append((f"canonicalise_to", lambda x: np.asarray(x.canonicalise(j).todense())))
             ops.append(("compress", lambda x: np.asarray(compress_fixed(x).todense())))
+        def coeff_isolation(x):
+            # the prefactor of a copy is the copy's own: multiplying it in place (as evolve_exact does) must not reach the source
+            y = x.copy()
+            before = complex(np.asarray(x.coeff).item())
+            y.coeff *= 2.0
+            return np.asarray([before, complex(np.asarray(x.coeff).item()), complex(np.asarray(y.coeff).item())])
+        if kind in ("mps", "mpdm"):
+            ops.append(("copy-then-scale-coeff-in-place", coeff_isolation))
         if kind == "mps":
             ops += [("expectation", lambda x: np.asarray(x.expectation(mpo))),
                     ("apply", lambda x: np.asarray(mpo.apply(x).todense())),
